@@ -6,8 +6,8 @@ CONSTANTS
   Base = 65530
   L = 30
   SeqD = {1, 2, 5, 0, 101, 103, 200}
-  ClkA = {0, 1, 125, 1000}
-  ClkB = {0, 1, 125, 1000, 7999, 8000, 64500}
+  ClkA = {0, 1, 977, 1000, 125000, 1000000}
+  ClkB = {0, 1, 976, 977, 1000, 125000, 1000000, 7997070, 7997071, 7998046, 7998047, 7999000, 7999023, 7999024, 7999999, 8000000, 8000001, 64500000}
   Sizes = {12, 19, 20, 26, 28, 30, 36, 1199, 1200, 1201}
   PastSizes = {1200, 36}
   Jump = 0
